@@ -69,6 +69,24 @@ CHECKS["C16"] = dict(
          "after the call and after the harness mutated the copy, C02-C05 on the result.",
     design="4 C16", technique="TLA+ derived-graph operators; TLC validation of recorded derive lines on TLC-generated states")
 
+CHECKS["C09"] = dict(
+    text="For every reachable state of the bounded model (reciprocal pairs, self-loops, multi-run timelines) and seeded random "
+         "graphs, write_snapshots is run over delimiters x encodings x targets (plain/.gz/.bz2 path, open binary file); the "
+         "bytes are tokenised strictly by the harness and TLC judges (spec/Derived.tla): one row per interaction and instant, "
+         "orientation kept; read_snapshots with matching parameters yields the same presence relation, the right class and a "
+         "well-formed graph (C02-C05 on it). Four-column rows are judged by the parser lines of C18.",
+    design="4 C09", technique="TLA+ derived-graph operators; TLC validation of recorded write/read lines on TLC-generated states")
+CHECKS["C10"] = dict(
+    text="Same scheme for write_interactions / read_interactions: rows = observed stream in order, presence and stream of the "
+         "graph read back equal the source's (known finding KF1 inherited through the log). Generated well-formed event logs "
+         "are fed to the reader by the parser lines (spec/Parsers.tla).",
+    design="4 C10", technique="TLA+ derived-graph operators; TLC validation of recorded write/read lines on TLC-generated states")
+CHECKS["C11"] = dict(
+    text="Same scheme for node_link_data -> json.dumps -> json.loads -> node_link_graph: dumps succeeds, directed flag, node list "
+         "with attribute digests, one link per interaction and instant oriented, rebuilt class / nodes / attribute digests / graph "
+         "attributes / presence; the directed argument decides only when the key is absent; custom attrs['id'].",
+    design="4 C11", technique="TLA+ derived-graph operators; TLC validation of recorded write/read lines on TLC-generated states")
+
 NOT_YET = {}
 
 TITLES = {}
